@@ -35,6 +35,7 @@ type netSlot struct {
 	claims    int
 	faults    int
 	emitOK    bool
+	crafted   bool
 }
 
 var netAlgProfile = func() [][2]string {
@@ -133,6 +134,10 @@ func (netWorld) Gen(prop, tier string, idx int, r *Rng) *Trace {
 		ai := r.Intn(nAtt)
 		att := cfg.Attesters[ai]
 		l := newLabel()
+		if len(labels) > 0 && r.Chance(1, 4) {
+			// the attester's reused Evidence first decodes somebody else's token
+			ops = append(ops, Op{K: "absorb", A: ai, T: labels[r.Intn(len(labels))]})
+		}
 		ops = append(ops, Op{K: "emit", S: l, A: ai, B: r.Intn(len(att.Claims)), C: r.Intn(3)})
 		labels = append(labels, l)
 		// the fault-free arm
@@ -165,6 +170,12 @@ func (netWorld) Gen(prop, tier string, idx int, r *Rng) *Trace {
 			}
 			ops = append(ops, Op{K: "deliver", T: cl, B: key, C: r.Intn(3)})
 		}
+		// a Byzantine attester crafts a message with its own key and sends it to the verifier that trusts that key
+		if r.Chance(1, 3) {
+			cl := newLabel()
+			ops = append(ops, Op{K: "craft", S: cl, A: ai, B: r.Intn(len(att.Claims)), C: r.Intn(craftVariants)})
+			ops = append(ops, Op{K: "deliver", T: cl, B: att.Signer.Key, C: r.Intn(3)})
+		}
 		// misroute the genuine token
 		if r.Chance(2, 3) {
 			ops = append(ops, Op{K: "deliver", T: l, B: wrongKeyFor(r, att.Signer), C: r.Intn(3)})
@@ -194,6 +205,64 @@ func tripleOf(tok []byte) (sign1Parts, string, bool) {
 		return p, "", false
 	}
 	return p, p.tripleKey(), true
+}
+
+// craft variants (Byzantine attester, own key)
+const (
+	craftAlgOnlyUnprotectedEmptyBstr = iota // protected h'', alg in the unprotected map, signature over that structure
+	craftAlgOnlyUnprotectedEmptyMap         // protected h'a0', alg in the unprotected map
+	craftNilPayload                         // payload nil, signature computed over the claims as detached content
+	craftNonMinimalAlg                      // protected {1: alg} with alg written non-minimally: genuinely signed as such
+	craftVariants
+)
+
+// sigStructure builds Sig_structure = ["Signature1", protected, external_aad = h'', payload].
+func sigStructure(prot, payload []byte) []byte {
+	out := []byte{0x84, 0x6a}
+	out = append(out, "Signature1"...)
+	out = append(out, cborBstr(prot)...)
+	out = append(out, 0x40)
+	out = append(out, cborBstr(payload)...)
+	return out
+}
+
+func cborInt(v int64) []byte {
+	if v >= 0 {
+		return encodeHead(0, uint64(v))
+	}
+	return encodeHead(1, uint64(-1-v))
+}
+
+// craftToken returns the crafted message and whether it legitimately counts
+// as "signed by that key" (so that accepting it is fine).
+func craftToken(signer cose.Signer, alg string, payload []byte, variant int) (tok []byte, genuine bool, err error) {
+	algEnc := cborInt(coseAlgValue[alg])
+	unprotAlg := append([]byte{0xa1, 0x01}, algEnc...)
+	var prot, unprot []byte
+	payloadEl := cborBstr(payload)
+	switch variant % craftVariants {
+	case craftAlgOnlyUnprotectedEmptyBstr:
+		prot, unprot = []byte{}, unprotAlg
+	case craftAlgOnlyUnprotectedEmptyMap:
+		prot, unprot = []byte{0xa0}, unprotAlg
+	case craftNilPayload:
+		prot, unprot = append([]byte{0xa1, 0x01}, algEnc...), []byte{0xa0}
+		payloadEl = []byte{0xf6}
+	case craftNonMinimalAlg:
+		v := coseAlgValue[alg]
+		prot, unprot = append([]byte{0xa1, 0x01}, encodeHeadW(1, uint64(-1-v), 2)...), []byte{0xa0}
+		genuine = true
+	}
+	sig, err := signer.Sign(nil, sigStructure(prot, payload))
+	if err != nil {
+		return nil, false, err
+	}
+	tok = []byte{0xd2, 0x84}
+	tok = append(tok, cborBstr(prot)...)
+	tok = append(tok, unprot...)
+	tok = append(tok, payloadEl...)
+	tok = append(tok, cborBstr(sig)...)
+	return tok, genuine, nil
 }
 
 var coseAlgValue = map[string]int64{"ES256": -7, "ES384": -35, "ES512": -36, "EdDSA": -8, "PS256": -37, "PS384": -38, "PS512": -39}
@@ -437,6 +506,10 @@ func (netWorld) Exec(prop string, t *Trace) *Result {
 			}
 			if a, b := getterObs(c), getterObs(dv.Claims); a != b {
 				res.violate("C03", "round-trip-claims-differ", "", i, "decoded claims differ from the originals:\n original: %s\n decoded:  %s", a, b)
+			} else if re, rerr := psatoken.EncodeClaimsToCBOR(dv.Claims); rerr != nil || !bytes.Equal(re, p.Payload) {
+				// claim for claim: the decoded set carries exactly the claims that were signed,
+				// no more and no fewer, so it encodes to the very payload it came from
+				res.violate("C03", "round-trip-claims-differ", "", i, "decoded claims do not re-encode to the payload they were decoded from (err=%v):\n payload:    %x\n re-encoded: %x", rerr, p.Payload, re)
 			}
 			if verr := dv.Verify(pubKey(spec.Key)); verr != nil {
 				res.violate("C03", "round-trip-verify-fails", "", i, "Verify on the decoded Evidence failed: %v", verr)
@@ -444,6 +517,44 @@ func (netWorld) Exec(prop string, t *Trace) *Result {
 				roundTrips++
 				res.Probes["round_trip_ok"]++
 			}
+		case "absorb":
+			if op.A < 0 || op.A >= len(atts) {
+				break
+			}
+			if src := slots[op.T]; src != nil && src.cur != nil {
+				err := atts[op.A].ev.UnmarshalCOSE(append([]byte{}, src.cur...))
+				res.logf("%d absorb att=%d err=%s", i, op.A, okOrErr(err))
+				res.Probes["attester_evidence_decoded_before_sign"]++
+			}
+		case "craft":
+			if op.A < 0 || op.A >= len(atts) {
+				break
+			}
+			st := atts[op.A]
+			spec := cfg.Attesters[op.A].Signer
+			if op.B < 0 || op.B >= len(st.live) || st.live[op.B] == nil {
+				break
+			}
+			payload, perr := psatoken.EncodeClaimsToCBOR(st.live[op.B])
+			if perr != nil {
+				break
+			}
+			tok, genuine, cerr := craftToken(st.hs, spec.Alg, payload, op.C)
+			if cerr != nil {
+				res.Fatal = "craft: " + cerr.Error()
+				return res
+			}
+			s := &netSlot{att: op.A, claims: op.B, orig: tok, cur: append([]byte{}, tok...), crafted: true}
+			if genuine {
+				if _, triple, ok := tripleOf(tok); ok {
+					led.add(spec.Key, triple)
+				}
+			}
+			if op.S != "" {
+				slots[op.S] = s
+			}
+			res.Faults[fmt.Sprintf("byz.craft%d", op.C%craftVariants)]++
+			res.logf("%d craft att=%d variant=%d tok=%x", i, op.A, op.C%craftVariants, tok)
 		case "copy":
 			src := slots[op.T]
 			if src == nil || op.S == "" {
